@@ -308,8 +308,12 @@ def r3_r5(ctx, F, hub):
         for o in o_cur:
             if o.kind == 'call' and o.bb is not None and o.key in hub.current_reads():
                 path_ok = hub.path_class(b, b.blocks[o.bb]['term']['args'][0]) == 'live'
-        ctx.check(cur_ok and path_ok, 'C03.R3', '%s:current-read-inside' % handler, 'cas_decide(current_hash(&dst) read in the region, ..)',
-                  'the `current` compared by cas_decide is not the hash of the live path read inside the locked region (read before taking the lock?)', term_loc(b, cb))
+        if cur_ok and not path_ok and hub.optional_staging and handler == 'handle_put':
+            # the hash IS read inside the region; which path it is read from is a field of the handler's path struct
+            ctx.undecided('C03.R3', 'handle_put reads the current hash inside the region from a path it keeps in a struct (%s): that it is the live destination is not decided' % hub.optional_staging)
+        else:
+          ctx.check(cur_ok and path_ok, 'C03.R3', '%s:current-read-inside' % handler, 'cas_decide(current_hash(&dst) read in the region, ..)',
+                    'the `current` compared by cas_decide is not the hash of the live path read inside the locked region (read before taking the lock?)', term_loc(b, cb))
         dos = hub.deep_origins(b, ct['args'][1])
         exp_ok = bool(dos)
         for bp, o in dos:
